@@ -17,7 +17,9 @@ RULE = ('three streams: (a) random operation sequences (add/get/get_category/rel
         'distinct sentinel arguments (every combination of the directive\'s boolean flags; every directive that has a table '
         'site has a scenario), every key of the recorded '
         'introspectable read back and compared with the regenerated table (which argument reaches which key) and with the '
-        'arguments given (documented normalisations by value); (c) include-nesting '
+        'arguments given (documented normalisations by value; the key set of the entry = the keys the site stores and the keys '
+        'the documentation promises; also through 1-2 helper layers passing _backframes, with one-shot iterators, and in pairs '
+        'of statements sharing an object); (c) include-nesting (children included directly or by an add-on directive) '
         'programs that override statements. non-trivial = an op sequence containing at least one relate/register-with-relation '
         'and one read-back, or a directive scenario with at least 2 argument-carrying keys; distinct by full case')
 ASSUMPTIONS = ['hash((category, discriminator)) is injective on the discriminators used (dict-key equality of introspectables = same '
@@ -44,7 +46,11 @@ TECHNIQUE = ('Coq proof over an Introspector state machine; the executable progr
              'correspondence (the regenerated program is what runs against the real Introspector); sentinel-argument scenarios '
              'for every directive that builds or forwards an entry, in every combination of its boolean flags, reading every '
              'key back (documented normalisations such as property := property or reify are judged by value); shape pins for '
-             'the hand-followed rest; tools/coverage_map.py --property C20 reports 0 untied functions in the anchor files')
+             'the hand-followed rest; fail-closed structural facts (no mutable class-level attribute and pinned class-level '
+             'statements of the modelled classes, every introspectable variable bound once per path and never read by a closure '
+             'when shared, no mutable defaults in entry-building functions); statements issued through helpers that pass '
+             '_backframes, through add-on directives that include(), in pairs sharing an object, with one-shot iterators; '
+             'tools/coverage_map.py --property C20 reports 0 untied functions in the anchor files')
 LEVEL_TEXT = ('Theorems: the program regenerated from the current source equals the reference model for every method and on every '
               'operation sequence (C20_generated_*_is_model, C20_generated_run_is_model); every key of every regenerated directive '
               'table that names a directive argument records that argument or a normalisation of it, a boolean literal counting '
@@ -69,6 +75,23 @@ DOC_EXPECT = {
     # a property/reify callable is recorded as the descriptor built from it
     ('add_request_method', 'callable'): lambda a: ('skip',) if (a.get('property') or a.get('reify')) else None,
 }
+
+
+CLASS_FILES = ['pyramid/registry.py', 'pyramid/config/__init__.py', 'pyramid/config/actions.py'] + [
+    'pyramid/config/%s.py' % b_ for b_ in X.FILES]
+
+
+def _immutable_class_value(v):
+    if isinstance(v, ast.Constant):
+        return True
+    if isinstance(v, (ast.Name, ast.Attribute)):
+        return True                     # an alias of a module-level object / another member
+    if isinstance(v, ast.Tuple):
+        return all(_immutable_class_value(e) for e in v.elts)
+    if isinstance(v, ast.Call) and isinstance(v.func, ast.Name) and v.func.id in ('property', 'staticmethod', 'classmethod', 'frozenset') \
+            and all(isinstance(a_, (ast.Name, ast.Attribute, ast.Constant)) for a_ in v.args) and not v.keywords:
+        return True
+    return False
 
 
 def _form(f):
@@ -106,6 +129,40 @@ def facts(src):
             problems.append('pyramid/config/__init__.py no longer imports Introspectable / Introspector from pyramid.registry: %s' % imp)
     except (OSError, SyntaxError) as e:
         problems.append('cannot parse pyramid/config/__init__.py: %s' % e)
+    # CLASS-LEVEL STATE: the modelled classes (Configurator and its directive mixins, the introspector classes, the action
+    # machinery) keep no mutable object at class level -- it would be shared by every instance (parent / include() child /
+    # with_package() child configurators, other registries, other threads); and the class-level statements of the
+    # classes whose attributes the model relies on are exactly the pinned ones
+    class_level = {}
+    for rel in CLASS_FILES:
+        try:
+            tree = F.Module(src, rel).tree
+        except (OSError, SyntaxError) as e:
+            problems.append('cannot parse %s: %s' % (rel, e))
+            continue
+        for c in ast.walk(tree):
+            if not isinstance(c, ast.ClassDef):
+                continue
+            stmts = []
+            for st in c.body:
+                if isinstance(st, (ast.FunctionDef, ast.Pass)) or (isinstance(st, ast.Expr) and isinstance(st.value, ast.Constant)):
+                    continue
+                stmts.append(ast.unparse(st))
+                vals = [st.value] if isinstance(st, (ast.Assign, ast.AnnAssign)) and st.value is not None else None
+                if vals is None or not all(_immutable_class_value(v) for v in vals):
+                    problems.append('%s: class %s has the class-level statement `%s`: not an immutable literal, an alias or a '
+                                    'property -- state shared between all instances' % (rel, c.name, stmts[-1][:80]))
+            class_level['%s:%s' % (rel, c.name)] = stmts
+    try:
+        with open(os.path.join(HERE, 'pins_classlevel.json')) as f:
+            want_cl = json.load(f)
+    except (OSError, ValueError):
+        want_cl = {}
+        problems.append('cannot read harness/c20/pins_classlevel.json')
+    for k, w in sorted(want_cl.items()):
+        if class_level.get(k) != w:
+            problems.append('class-level statements of %s changed: %s (expected %s)' % (k, class_level.get(k), w))
+    summary['class_level_checked'] = len(class_level)
     # the introspector program, regenerated from the source text (harness/c20/translate.py)
     gen, tpr, tsum, masked = T.translate_tree(src)
     problems += tpr
@@ -351,12 +408,13 @@ def _scenarios():
                 args[k] = v(sel[k]) if k in sel else (tuple(v.items) if isinstance(v, It) else v)
             args.update(over or {})
 
-            def call(c):
+            def call(c, **extra):
                 # an argument documented as "an iterable" may be a one-shot iterator: what is recorded must not depend on it
                 given = {k: ((x for x in v) if (as_iter and k in iters) else v) for k, v in args.items()}
-                return getattr(c, func)(**given)
+                return getattr(c, func)(**given, **extra)
             return call, args
         build.nflags = len(flags)
+        build.layerable = func
         build.niter = len(iters)
         return build
 
@@ -581,6 +639,21 @@ def _run_directive(case):
     func, build = scenarios()[name]
     call, args = build(variant, True) if case.get('iter') else build(variant)
     c = Configurator(autocommit=False)
+    layers = case.get('layers', 0)
+    want_line = [None]
+    if layers:
+        # the statement is a helper call `layers` frames above the directive; the helpers pass `_backframes` (the documented
+        # way "for outer decorators to action methods") so that the entry points at the statement, not into the helper
+        import sys as _sys
+        bf = layers + (1 if build.layerable in _viewdefaults_directives() else 0)
+        inner = call            # helper 1: the scenario's own function that calls the directive
+
+        def layer(c_):          # helper 2
+            return inner(c_, _backframes=bf)
+
+        def call(c_):
+            want_line[0] = _sys._getframe().f_lineno + 1
+            (layer(c_) if layers == 2 else inner(c_, _backframes=bf))          # <- the statement
     before = {(cn, id(e['introspectable'])) for cn, items in c.introspector.categorized() for e in items}
     call(c)
     c.commit()
@@ -600,9 +673,33 @@ def _run_directive(case):
             # "action info points at the statement": the statement is issued from this file
             ai = intr.action_info
             fn = getattr(ai, 'file', None) or ''
-            out.append([cn, '@action_info', ['statement'] if fn.endswith(os.path.join('harness', 'c20', 'prop.py'))
-                        else ['elsewhere:' + os.path.basename(fn)], ''])
+            here = fn.endswith(os.path.join('harness', 'c20', 'prop.py'))
+            if here and want_line[0] is not None and getattr(ai, 'line', None) != want_line[0]:
+                out.append([cn, '@action_info', ['another-line-of-the-harness'], ''])
+            else:
+                out.append([cn, '@action_info', ['statement'] if here else ['elsewhere:' + os.path.basename(fn)], ''])
     return [func, out]
+
+
+_VD = []
+_DOC = []
+
+
+def _viewdefaults_directives():
+    """directives wrapped by @viewdefaults (one more frame between the statement and action_method)"""
+    if not _VD:
+        import ast as _ast
+        import harness.common.build as B
+        names = set()
+        try:
+            tree = _ast.parse(open(os.path.join(B.SRC, 'pyramid/config/views.py')).read())
+            for n in _ast.walk(tree):
+                if isinstance(n, _ast.FunctionDef) and any(_ast.unparse(d) == 'viewdefaults' for d in n.decorator_list):
+                    names.add(n.name)
+        except (OSError, SyntaxError):
+            pass
+        _VD.append(names)
+    return _VD[0]
 
 
 def _carries(func, cn, intr, args, scen):
@@ -674,7 +771,9 @@ def gen_program(rng):
     for k, st in enumerate(stmts):
         nodes[st['node']].append(['stmt', k])
     for ch in range(1, n_nodes):
-        nodes[parent[ch]].append(['inc', ch])
+        # a child is included directly, or by an add-on directive (add_directive, action_wrap=True) that calls include():
+        # its statements are then issued while an action method of ANOTHER configurator object is still running
+        nodes[parent[ch]].append(['inc', ch, 'addon'] if rng.random() < 0.4 else ['inc', ch])
     for items in nodes:
         if rng.random() < 0.3:
             items.append(['fail'])     # a directive that raises (caught by the application), then configuration goes on
@@ -710,7 +809,14 @@ def _run_program(case):
                 inc.__name__ = 'inc_%d' % child
                 inc.__qualname__ = inc.__name__
                 inc.__module__ = __name__
-                cfg.include(inc)
+                if len(item) > 2 and item[2] == 'addon':
+                    def addon(config, inc=inc):
+                        config.include(inc)
+                    dname = 'c20_addon_%d' % child
+                    cfg.add_directive(dname, addon, action_wrap=True)
+                    getattr(cfg, dname)()
+                else:
+                    cfg.include(inc)
             elif item[0] == 'fail':
                 try:
                     cfg.add_route('broken', None)      # ConfigurationError: pattern required
@@ -886,6 +992,11 @@ def generate(rng, tier, n):
             yield {'kind': 'directive', 'name': name, 'variant': variant}
         if getattr(scenarios()[name][1], 'niter', 0):
             yield {'kind': 'directive', 'name': name, 'variant': 0, 'iter': True}
+        lay = getattr(scenarios()[name][1], 'layerable', None)
+        if lay:
+            # helpers layered on the directive (traceback.extract_stack(limit=4) reaches 2 + _backframes <= 4 frames)
+            for n_layers in ((1,) if lay in _viewdefaults_directives() else (1, 2)):
+                yield {'kind': 'directive', 'name': name, 'variant': 0, 'layers': n_layers}
         # every combination of the directive's boolean flags (so that a mix-up between two flags shows)
         for combo in itertools.product((0, 1), repeat=nflags):
             if nflags >= 2 and len(set(combo)) > 1:
@@ -914,6 +1025,8 @@ def valid(case):
             if case['name'] not in scenarios():
                 return False
             v = case['variant']
+            if 'layers' in case and not (case['layers'] in (1, 2) and getattr(scenarios()[case['name']][1], 'layerable', None)):
+                return False
             if isinstance(v, list):
                 return len(v) == getattr(scenarios()[case['name']][1], 'nflags', 0) and all(x in (0, 1) for x in v)
             return v in (0, 1)
@@ -931,7 +1044,7 @@ def valid(case):
                             return False
                         seen_st.append(it[1])
                     elif it[0] == 'inc':
-                        if case['parent'][it[1]] != i:
+                        if case['parent'][it[1]] != i or not (len(it) == 2 or it[2:] == ['addon']):
                             return False
                         seen_inc.append(it[1])
                     elif it != ['fail']:
@@ -1045,7 +1158,7 @@ def spec_holds(case, obs, spec):
     return _directive_spec(case, obs)
 
 
-def _directive_spec(case, obs, waive=None):
+def _directive_spec(case, obs, waive=None, waive_missing=None):
     """waive = (category, key, accept(srcs)): that one row is not judged when accept says it shows exactly the named deviation"""
     if obs and obs[0] == 'HARNESS-EXC':
         return False
@@ -1059,6 +1172,26 @@ def _directive_spec(case, obs, waive=None):
     want = EXPECT_CATEGORY.get(case['name'])
     if want is not None and not any(r[0] == want for r in rows):
         return False            # the statement took effect but left no entry in its documented category
+    # the keys of an entry: what the directive's own site stores (regenerated table), and what the documentation promises
+    import harness.common.build as B
+    try:
+        doc = _DOC[0] if _DOC else _DOC.append(X.documented(os.path.dirname(B.SRC))) or _DOC[0]
+    except OSError:
+        doc = {}
+    for cn in sorted({r[0] for r in rows}):
+        site = [s_ for s_ in sites if s_['category'] == cn]
+        if not site:
+            continue
+        have = {r[1] for r in rows if r[0] == cn and r[1] != '@action_info'}
+        if not any(s_['updates'] for s_ in site):
+            known = {kk['key'] for s_ in site for kk in s_['keys']}
+            if not have <= known:
+                return False        # the entry holds a key that no store of this directive's site puts there
+        missing = set(doc.get(cn, [])) - have if cn == want else set()
+        if waive_missing is not None and cn == waive_missing[0]:
+            missing -= {waive_missing[1]}
+        if missing:
+            return False            # a key the documentation promises for this category is missing from the entry
     for row in rows:
         cn, k, srcs = row[0], row[1], row[2]
         bval = row[3] if len(row) > 3 else ''
@@ -1189,6 +1322,12 @@ SINGLE_KEY_FINDINGS = {
 }
 
 
+# known findings that are exactly ONE documented key missing from ONE directive's entry
+MISSING_KEY_FINDINGS = {
+    'C20-root-factory-route-name-missing': ('set_root_factory', 'root factories', 'route_name'),
+}
+
+
 def classify(case, obs, spec):
     try:
         if case['kind'] == 'pair' and isinstance(obs, list) and len(obs) == 3 and obs[0] == 0:
@@ -1200,6 +1339,10 @@ def classify(case, obs, spec):
             if case['name'] == 'add_static_view' and obs[1] == 1:
                 return 'C20-static-view-entries-collide-across-route-prefixes'
         if case['kind'] == 'directive' and isinstance(obs, list) and len(obs) == 2 and isinstance(obs[1], list):
+            for fid, (scen, cn, key) in MISSING_KEY_FINDINGS.items():
+                if case['name'] == scen and not any(r[0] == cn and r[1] == key for r in obs[1]) \
+                        and _directive_spec(case, obs, None, (cn, key)) is True:
+                    return fid
             for fid, (scen, cn, key, accept) in SINGLE_KEY_FINDINGS.items():
                 if case['name'] == scen and any(r[0] == cn and r[1] == key and accept(case, r[2]) for r in obs[1]) \
                         and _directive_spec(case, obs, (cn, key, lambda srcs, a=accept, c=case: a(c, srcs))) is True:
@@ -1245,7 +1388,8 @@ def kinds(case, obs):
     if case['kind'] == 'pair':
         return ['pair', 'pair:' + case['name'] + (':conflict' if isinstance(obs, list) and obs and obs[0] == 1 else '')]
     if case['kind'] == 'directive':
-        return ['directive', 'directive:' + case['name']] + (['directive:iterator-argument'] if case.get('iter') else [])
+        return ['directive', 'directive:' + case['name']] + (['directive:iterator-argument'] if case.get('iter') else []) \
+            + (['directive:layered-helper-%d' % case['layers']] if case.get('layers') else [])
     out = ['ops', 'ops-len-%d' % len(case['ops'])]
     for o, r in zip(case['ops'], obs if isinstance(obs, list) else []):
         out.append('op:' + o[0] + (':KeyError' if r == ['K'] else ':ValueError' if r == ['V'] else ''))
